@@ -84,6 +84,7 @@ PLAN = {
     },
     "C18": {"gen": [G("mpsrt", "Gen_Inst_MpsRoundtrip.cfg", module="Gen_Inst.tla")], "drive": [D("mps_roundtrip", 1500, 60000)]},
     "C19": {
+        "mc": [{"name": "qplibreader", "module": "MC_QplibReader.tla", "cfg_quick": "MC_QplibReader.cfg"}],
         "gen": [G("qplib", "Gen_Qplib.cfg", module="Gen_Qplib.tla"),
                 G("qplibrand", "Gen_QplibRand.cfg", module="Gen_Qplib.tla", models=("qplib_models", 300, 20000))],
         "exhaustive_note": "all 4x5x6 problem-type codes x {minimal, dense min, dense max} x 4 layouts; 4 error classes with expected line numbers",
